@@ -173,6 +173,7 @@ def run(ctx):
     ctx.section(confinement)
     ctx.section(one_way)
     ctx.section(signal_context)
+    ctx.section(active_fd)
 
 
 def lockset_rule(ctx):
@@ -475,3 +476,38 @@ def signal_context(ctx):
     bad = [q for q in seen if q.split(':')[-1].startswith('___mutex_') or q.split(':')[-1] in ('iv_event_post', 'malloc', 'free')]
     ctx.ob('R-C14d', 'signal-handler:no-mutex', not bad, loc=h.loc,
            detail='repo functions reachable: %d; mutex/allocating ones: %s' % (len(seen), bad or 'none'))
+
+
+def active_fd(ctx):
+    """iv_active_fd is written under the mutex and may be read without it only
+    while the reader holds a reference: never after its own reference was dropped."""
+    prog = ctx.prog
+    n = 0
+    for f in sorted(prog.all_funcs(), key=lambda f: f.q):
+        acc = [e for e in f.events() if
+               (e['ev'] == 'load' and strip(e['e']).get('k') == 'var' and strip(e['e'])['name'] == 'iv_active_fd' and strip(e['e']).get('vk') in ('global', 'staticlocal'))
+               or (e['ev'] == 'store' and lvalue_root(e['lhs']) is not None and lvalue_root(e['lhs'])['name'] == 'iv_active_fd')]
+        if not acc:
+            continue
+        ls = locksets(f)
+        drops = [e for e in f.events() if e['ev'] == 'store' and lvalue_root(e['lhs']) is not None and lvalue_root(e['lhs'])['name'] == 'iv_active_fd_refcount'
+                 and e['op'] in ('--', '-=')]
+        after = {}
+        if drops:
+            def tr(e, s_):
+                return True if e in drops else s_
+            _, after = forward(f, False, tr, lambda a, b: a or b)
+        for e in acc:
+            n += 1
+            H = held(ls.get((e['_b'], e['_i'])))
+            if e['ev'] == 'store':
+                ok = AFD in H
+                det = 'written with the active-fd mutex held'
+            else:
+                dropped = bool(after.get((e['_b'], e['_i'])))
+                ok = (AFD in H) or not dropped
+                det = ('read under the mutex' if AFD in H else 'read while this thread still holds its reference') if ok else \
+                    'read without the mutex after this thread dropped its reference: another thread may be re-creating the descriptor'
+            ctx.ob('R-C14a', '%s:iv_active_fd:%s' % (f.name, 'write' if e['ev'] == 'store' else 'read'), ok, loc=e['loc'], detail=det, fn=f.q)
+    if n < 4:
+        raise AnalysisBroken('accesses to iv_active_fd: %d found' % n)
